@@ -1032,6 +1032,9 @@ def check_prog(case):
             cn["P"](2.5 * a_impl, other)
             y2 = A.relayout(y0.copy(), lay)
             y2c = y2.copy()
+            o1 = cn["P"](a_impl, y2)
+            if isinstance(o1, np.ndarray) and not np.may_share_memory(o1, y2):
+                A.scribble(o1)          # the caller owns a returned array; overwriting it must not affect later calls
             x2 = np.asarray(cn["P"](a_impl, y2))
             if x2.shape != np.shape(x) or not _nrm(x2.astype(np.complex128) - np.asarray(x).astype(np.complex128)) <= tol * (1.0 + _nrm(y0) + pscale_arrays(cn)):
                 r.fail(root + ":second-call-differs", "second call on the same object (after another call; y as a '%s' array) "
